@@ -395,3 +395,13 @@ Theorem zip_roundtrip (zc zd : list N -> list N) :
   (forall x, zd (zc x) = x) ->
   forall ut v, wf v = true -> parse_binary (zd (zc (format_binary ut false v))) = Some (canon ut v).
 Proof. intros Hz ut v Hw. rewrite Hz. now apply parse_binary_format. Qed.
+
+(* the code as it stands (URIs tagged): exact consumption, value unchanged *)
+Theorem parse_bin_rest_tagged v rest :
+  wf v = true -> parse_bin_rest (fmt_bin true v ++ rest) = Some (v, rest).
+Proof. intros Hw. rewrite parse_bin_rest_fmt by exact Hw. now rewrite canon_tagged. Qed.
+
+Theorem zip_roundtrip_tagged (zc zd : list N -> list N) :
+  (forall x, zd (zc x) = x) ->
+  forall v, wf v = true -> parse_binary (zd (zc (format_binary true false v))) = Some v.
+Proof. intros Hz v Hw. rewrite (zip_roundtrip zc zd Hz) by exact Hw. now rewrite canon_tagged. Qed.
